@@ -157,3 +157,216 @@ Print Assumptions C18_pk_verify.
 Print Assumptions C18_pk_verify_total.
 Print Assumptions C18_twos_bot_translated.
 Print Assumptions C18_twos_auth_translated.
+
+(* ======================================================================================================
+   Phase 4: tie by TRANSLATION.  tools/gotrans/c18.go translates NameToUUID, both authDigest copies,
+   lineBreaker.Write / Close, VerifySignature, PublicKey.Verify and server/auth encryptionResponse statement by
+   statement into Gallina functions (Gen/C18gen.v, regenerated from the Go source on every run; the meaning of
+   the Go operations and library calls is Model/C18_syntax.v).  The theorems below state, for ALL arguments and
+   ALL oracles, that the translated functions are the model's functions, and restate the property about the
+   translated functions themselves.
+   ====================================================================================================== *)
+From GoMC Require Gen.C18gen Model.C18_syntax Model.C18_enc Proofs.C18_skel Proofs.C18_tie_top Proofs.C18_enc Proofs.C18_expected.
+Import Model.C18_syntax Model.C18_enc.
+
+(* ---- offline/uuid.go NameToUUID, for every MD5 function (also one with a wrong digest length) and every name ---- *)
+Theorem C18_NameToUUID_translated : forall (md5 : list N -> list N) (name : list N),
+  C18gen.offline_NameToUUID md5 name = Ok (name_to_uuid md5 name).
+Proof. exact C18_skel.tie_NameToUUID. Qed.
+Theorem C18_NameToUUID_translated_java : forall (md5 : list N -> list N) (name : list N),
+  length (md5 (offline_prefix ++ name)) = 16%nat -> all_bytes (md5 (offline_prefix ++ name)) ->
+  C18gen.offline_NameToUUID md5 name = Ok (java_name_uuid md5 (offline_prefix ++ name)).
+Proof. exact C18_tie_top.translated_uuid_java. Qed.
+
+(* ---- both authDigest copies: order of the three hash writes, sign test, twosComplement (Gen/Funcs.v), hex,
+        TrimLeft "0", "-" prefix ---- *)
+Theorem C18_authDigest_bot_translated : forall (sha1 : list N -> list N) (sid secret key : list N),
+  let h := sha1 (sid ++ secret ++ key) in
+  all_bytes h -> (Z.of_nat (length h) < 2 ^ 62)%Z ->
+  C18gen.bot_authDigest sha1 sid secret key = bot_auth_digest sha1 sid secret key.
+Proof. exact C18_skel.tie_bot_authDigest. Qed.
+Theorem C18_authDigest_auth_translated : forall (sha1 : list N -> list N) (sid secret key : list N),
+  let h := sha1 (sid ++ secret ++ key) in
+  all_bytes h -> (Z.of_nat (length h) < 2 ^ 62)%Z ->
+  C18gen.auth_authDigest sha1 sid secret key = server_auth_digest sha1 sid secret key.
+Proof. exact C18_skel.tie_auth_authDigest. Qed.
+Theorem C18_authDigest_translated_java : forall (sha1 : list N -> list N) (sid secret key : list N),
+  let h := sha1 (sid ++ secret ++ key) in
+  h <> [] -> all_bytes h -> h <> repeat 0 (length h) -> (Z.of_nat (length h) < 2 ^ 62)%Z ->
+  C18gen.bot_authDigest sha1 sid secret key = Ok (java_hex (signed_be h)) /\
+  C18gen.auth_authDigest sha1 sid secret key = Ok (java_hex (signed_be h)).
+Proof. exact C18_tie_top.translated_digest_java. Qed.
+
+(* ---- yggdrasil/user lineBreaker: one Write call, Close, and every sequence of Write calls + Close ---- *)
+Theorem C18_lineBreaker_Write_translated : forall (fuel : nat) (line : list N) (used : Z) (out b : list N),
+  length line = 76%nat -> (0 <= used < 76)%Z -> (lenZ b < 2 ^ 60)%Z ->
+  C18gen.user_lineBreaker_Write (list N) hash_writer fuel line used out b
+  = C18_skel.lift_lbw line out (lb_write fuel (firstn (Z.to_nat used) line) b).
+Proof. exact C18_tie_top.lbw_tie1. Qed.
+Theorem C18_lineBreaker_Close_translated : forall (line : list N) (used : Z) (out : list N),
+  length line = 76%nat -> (0 <= used <= 76)%Z ->
+  C18gen.user_lineBreaker_Close (list N) hash_writer line used out
+  = Ok (line, used, out ++ lb_close (firstn (Z.to_nat used) line), false).
+Proof. exact C18_skel.lbc_tie. Qed.
+Theorem C18_lineBreaker_run_translated : forall (chunks : list (list N)) (line : list N) (used : Z) (out : list N),
+  length line = 76%nat -> (0 <= used < 76)%Z -> C18_skel.small_chunks chunks ->
+  kwrites (C18gen.user_lineBreaker_Write (list N) hash_writer) chunks line used out
+    (fun l u o => kmust (C18gen.user_lineBreaker_Close (list N) hash_writer l u o) (fun _ _ o' => Ok o'))
+  = match lb_run_from (firstn (Z.to_nat used) line) chunks with
+    | Ok (body, _) => Ok (out ++ body)
+    | Panic => Panic
+    | OutOfFuel => OutOfFuel
+    end.
+Proof. exact C18_tie_top.run_tie_ok. Qed.
+Theorem C18_lineBreaker_translated_frames : forall chunks : list (list N), C18_skel.small_chunks chunks ->
+  kwrites (C18gen.user_lineBreaker_Write (list N) hash_writer) chunks (repeat 0 76) 0%Z []
+    (fun l u o => kmust (C18gen.user_lineBreaker_Close (list N) hash_writer l u o) (fun _ _ o' => Ok o'))
+  = Ok (pem_lines (concat chunks)).
+Proof. exact C18_skel.translated_linebreaker_frames. Qed.
+
+(* ---- VerifySignature and PublicKey.Verify ---- *)
+Theorem C18_VerifySignature_translated : forall (K : Type) (b64_write : list N -> list N -> list (list N))
+    (b64_close : list N -> list (list N)) (sha256 : list N -> list N) (rsa_verify : K -> list N -> list N -> bool)
+    (pubKey : K) (key sig : list N),
+  C18_skel.small_chunks (C18_skel.b64_all b64_write b64_close key) ->
+  C18gen.user_VerifySignature b64_write b64_close K rsa_verify pubKey sha256 key sig
+  = verify_signature K (C18_skel.b64_all b64_write b64_close) sha256 rsa_verify pubKey key sig.
+Proof. exact C18_skel.tie_VerifySignature. Qed.
+Theorem C18_VerifySignature_translated_exact : forall (K : Type) (b64_write : list N -> list N -> list (list N))
+    (b64_close : list N -> list (list N)) (sha256 : list N -> list N) (rsa_verify : K -> list N -> list N -> bool)
+    (pubKey : K) (key sig : list N),
+  C18_skel.small_chunks (C18_skel.b64_all b64_write b64_close key) ->
+  C18gen.user_VerifySignature b64_write b64_close K rsa_verify pubKey sha256 key sig
+  = Ok (rsa_verify pubKey (sha256 (payload_spec (C18_skel.b64_all b64_write b64_close) key)) sig).
+Proof. exact C18_tie_top.translated_verify_exact. Qed.
+Theorem C18_VerifySignature_translated_refuses : forall (K : Type) (b64_write : list N -> list N -> list (list N))
+    (b64_close : list N -> list (list N)) (sha256 : list N -> list N) (rsa_verify : K -> list N -> list N -> bool)
+    (pubKey : K) (key sig : list N),
+  C18_skel.small_chunks (C18_skel.b64_all b64_write b64_close key) ->
+  rsa_verify pubKey (sha256 (payload_spec (C18_skel.b64_all b64_write b64_close) key)) sig = false ->
+  C18gen.user_VerifySignature b64_write b64_close K rsa_verify pubKey sha256 key sig = Ok false.
+Proof. exact C18_tie_top.translated_verify_refuses. Qed.
+Theorem C18_PublicKey_Verify_translated : forall (K PK : Type) (b64_write : list N -> list N -> list (list N))
+    (b64_close : list N -> list (list N)) (sha256 : list N -> list N) (rsa_verify : K -> list N -> list N -> bool)
+    (pubKey : K) (marshal : PK -> option (list N)) (now expires : Z) (pub : PK) (sig : list N),
+  (forall enc, marshal pub = Some enc -> C18_skel.small_chunks (C18_skel.b64_all b64_write b64_close enc)) ->
+  C18gen.user_PublicKey_Verify PK now marshal b64_write b64_close K rsa_verify pubKey sha256 expires pub sig
+  = pk_verify K PK (C18_skel.b64_all b64_write b64_close) sha256 rsa_verify pubKey marshal now expires pub sig.
+Proof. exact C18_skel.tie_PublicKey_Verify. Qed.
+Theorem C18_PublicKey_Verify_translated_sound : forall (K PK : Type) (b64_write : list N -> list N -> list (list N))
+    (b64_close : list N -> list (list N)) (sha256 : list N -> list N) (rsa_verify : K -> list N -> list N -> bool)
+    (pubKey : K) (marshal : PK -> option (list N)) (now expires : Z) (pub : PK) (sig : list N),
+  (forall enc, marshal pub = Some enc -> C18_skel.small_chunks (C18_skel.b64_all b64_write b64_close enc)) ->
+  C18gen.user_PublicKey_Verify PK now marshal b64_write b64_close K rsa_verify pubKey sha256 expires pub sig = Ok true ->
+  (now <= expires)%Z /\
+  exists enc, marshal pub = Some enc /\
+    rsa_verify pubKey (sha256 (payload_spec (C18_skel.b64_all b64_write b64_close) enc)) sig = true.
+Proof. exact C18_tie_top.translated_pk_verify. Qed.
+
+(* ---- server/auth encryptionResponse (model extension): order of the checks, token comparison, secret ---- *)
+Theorem C18_encryptionResponse_translated : forall (read_packet : option (Z * list N)) (login_key_id : Z)
+    (scan2 : list N -> option (list N * list N)) (decrypt : list N -> option (list N)) (token : list N),
+  C18gen.auth_encryptionResponse read_packet login_key_id scan2 decrypt token
+  = C18_skel.lift_enc (enc_response read_packet login_key_id scan2 decrypt token).
+Proof. exact C18_skel.tie_encryptionResponse. Qed.
+Theorem C18_enc_response_sound : forall (read_packet : option (Z * list N)) (login_key_id : Z)
+    (scan2 : list N -> option (list N * list N)) (decrypt : list N -> option (list N)) (token s : list N),
+  enc_response read_packet login_key_id scan2 decrypt token = Some s ->
+  exists data kb et, read_packet = Some (login_key_id, data) /\ scan2 data = Some (kb, et) /\
+                     decrypt et = Some token /\ decrypt kb = Some s.
+Proof. exact Proofs.C18_enc.enc_response_sound. Qed.
+Theorem C18_enc_response_complete : forall (read_packet : option (Z * list N)) (login_key_id : Z)
+    (scan2 : list N -> option (list N * list N)) (decrypt : list N -> option (list N)) (token s data kb et : list N),
+  read_packet = Some (login_key_id, data) -> scan2 data = Some (kb, et) ->
+  decrypt et = Some token -> decrypt kb = Some s ->
+  enc_response read_packet login_key_id scan2 decrypt token = Some s.
+Proof. exact Proofs.C18_enc.enc_response_complete. Qed.
+Theorem C18_enc_response_refuses : forall (read_packet : option (Z * list N)) (login_key_id : Z)
+    (scan2 : list N -> option (list N * list N)) (decrypt : list N -> option (list N)) (token data kb et tok : list N),
+  read_packet = Some (login_key_id, data) -> scan2 data = Some (kb, et) ->
+  decrypt et = Some tok -> tok <> token ->
+  enc_response read_packet login_key_id scan2 decrypt token = None.
+Proof. exact Proofs.C18_enc.enc_response_refuses. Qed.
+Theorem C18_encrypt_secret_len : forall (read_packet : option (Z * list N)) (login_key_id : Z)
+    (scan2 : list N -> option (list N * list N)) (decrypt : list N -> option (list N)) (token s : list N),
+  encrypt_secret read_packet login_key_id scan2 decrypt token = Some s ->
+  (length s = 16 \/ length s = 24 \/ length s = 32)%nat /\
+  enc_response read_packet login_key_id scan2 decrypt token = Some s.
+Proof. exact Proofs.C18_enc.encrypt_secret_len. Qed.
+
+(* ---- the rendered statements of every translated / pinned body are the recorded ones ---- *)
+Theorem C18_source_texts :
+  C18gen.offline_NameToUUID_text = C18_expected.expected_offline_NameToUUID_text /\
+  C18gen.bot_authDigest_text = C18_expected.expected_bot_authDigest_text /\
+  C18gen.auth_authDigest_text = C18_expected.expected_auth_authDigest_text /\
+  C18gen.user_lineBreaker_Write_text = C18_expected.expected_user_lineBreaker_Write_text /\
+  C18gen.user_lineBreaker_Close_text = C18_expected.expected_user_lineBreaker_Close_text /\
+  C18gen.user_VerifySignature_text = C18_expected.expected_user_VerifySignature_text /\
+  C18gen.user_PublicKey_Verify_text = C18_expected.expected_user_PublicKey_Verify_text /\
+  C18gen.auth_encryptionResponse_text = C18_expected.expected_auth_encryptionResponse_text /\
+  C18gen.auth_Encrypt_text = C18_expected.expected_auth_Encrypt_text /\
+  C18gen.auth_encryptionRequest_text = C18_expected.expected_auth_encryptionRequest_text /\
+  C18gen.bot_genEncryptionKeyResponse_text = C18_expected.expected_bot_genEncryptionKeyResponse_text /\
+  C18gen.bot_newSymmetricEncryption_text = C18_expected.expected_bot_newSymmetricEncryption_text /\
+  C18gen.bot_loginAuth_text = C18_expected.expected_bot_loginAuth_text /\
+  C18gen.user_PublicKey_WriteTo_text = C18_expected.expected_user_PublicKey_WriteTo_text /\
+  C18gen.user_PublicKey_ReadFrom_text = C18_expected.expected_user_PublicKey_ReadFrom_text /\
+  C18gen.user_PublicKey_VerifyMessage_text = C18_expected.expected_user_PublicKey_VerifyMessage_text /\
+  C18gen.user_Property_WriteTo_text = C18_expected.expected_user_Property_WriteTo_text /\
+  C18gen.user_Property_ReadFrom_text = C18_expected.expected_user_Property_ReadFrom_text /\
+  C18gen.user_validator_decls = C18_expected.expected_user_validator_decls /\
+  C18gen.user_pubkey_decls = C18_expected.expected_user_pubkey_decls /\
+  C18gen.auth_auth_decls = C18_expected.expected_auth_auth_decls.
+Proof. exact C18_tie_top.all_texts_ok. Qed.
+
+(* ---- non-vacuity of the new hypotheses: the translated functions run on concrete inputs ---- *)
+Example C18_ex_translated_jeb :
+  C18gen.bot_authDigest (fun _ => ex_jeb) [] [] [] = Ok (java_hex (signed_be ex_jeb)) /\
+  C18gen.auth_authDigest (fun _ => ex_jeb) [] [] [] = Ok (java_hex (signed_be ex_jeb)) /\
+  (Z.of_nat (length ex_jeb) < 2 ^ 62)%Z.
+Proof. vm_compute. repeat split; reflexivity. Qed.
+Example C18_ex_translated_uuid :
+  C18gen.offline_NameToUUID (fun _ => [199;185;238;206;47;46;98;92;141;168;111;200;243;208;237;176]) [84;110;122;101]
+  = Ok [199;185;238;206;47;46;50;92;141;168;111;200;243;208;237;176].
+Proof. vm_compute. reflexivity. Qed.
+(* 100 characters written as 30 + 70: one full line, the rest closed by Close; chunks are small *)
+Example C18_ex_translated_lines :
+  C18_skel.small_chunks [repeat 65 30; repeat 66 70] /\
+  kwrites (C18gen.user_lineBreaker_Write (list N) hash_writer) [repeat 65 30; repeat 66 70] (repeat 0 76) 0%Z []
+    (fun l u o => kmust (C18gen.user_lineBreaker_Close (list N) hash_writer l u o) (fun _ _ o' => Ok o'))
+  = Ok (repeat 65 30 ++ repeat 66 46 ++ [10] ++ repeat 66 24 ++ [10]).
+Proof. split; [repeat constructor|vm_compute; reflexivity]. Qed.
+Example C18_ex_translated_verify :
+  let rsa := fun (_ : unit) (_ : list N) (s : list N) => match s with [1] => true | _ => false end in
+  C18gen.user_VerifySignature (fun _ k => [k]) (fun _ => [[61]]) unit rsa tt (fun m => m) [65;66] [1] = Ok true /\
+  C18gen.user_VerifySignature (fun _ k => [k]) (fun _ => [[61]]) unit rsa tt (fun m => m) [65;66] [2] = Ok false.
+Proof. vm_compute. split; reflexivity. Qed.
+Example C18_ex_enc_response :
+  let dec := fun c : list N => match c with [1] => Some [7;7] | [2] => Some (repeat 9 16) | _ => None end in
+  let scan := fun d : list N => match d with [a; b] => Some ([a], [b]) | _ => None end in
+  encrypt_secret (Some (1%Z, [2; 1])) 1%Z scan dec [7;7] = Some (repeat 9 16) /\
+  encrypt_secret (Some (1%Z, [2; 1])) 1%Z scan dec [7;8] = None /\
+  C18gen.auth_encryptionResponse (Some (1%Z, [2; 1])) 1%Z scan dec [7;7] = Ok (repeat 9 16, false) /\
+  C18gen.auth_encryptionResponse (Some (0%Z, [2; 1])) 1%Z scan dec [7;7] = Ok ([], true).
+Proof. vm_compute. repeat split; reflexivity. Qed.
+
+Print Assumptions C18_NameToUUID_translated.
+Print Assumptions C18_NameToUUID_translated_java.
+Print Assumptions C18_authDigest_bot_translated.
+Print Assumptions C18_authDigest_auth_translated.
+Print Assumptions C18_authDigest_translated_java.
+Print Assumptions C18_lineBreaker_Write_translated.
+Print Assumptions C18_lineBreaker_Close_translated.
+Print Assumptions C18_lineBreaker_run_translated.
+Print Assumptions C18_lineBreaker_translated_frames.
+Print Assumptions C18_VerifySignature_translated.
+Print Assumptions C18_VerifySignature_translated_exact.
+Print Assumptions C18_VerifySignature_translated_refuses.
+Print Assumptions C18_PublicKey_Verify_translated.
+Print Assumptions C18_PublicKey_Verify_translated_sound.
+Print Assumptions C18_encryptionResponse_translated.
+Print Assumptions C18_enc_response_sound.
+Print Assumptions C18_enc_response_complete.
+Print Assumptions C18_enc_response_refuses.
+Print Assumptions C18_encrypt_secret_len.
+Print Assumptions C18_source_texts.
